@@ -212,3 +212,45 @@ def registry_inputs(name, m, sv, limit=600, funcs=('validate',)):
                     cands.append(a)
             out.extend(cands)
     return list(dict.fromkeys(out))
+
+
+# ------------------------------------------------------------------------------------------ code tables
+
+def table_inputs(name, m, sv, limit=1500):
+    """Inputs built from the module's own tables of strings (court names, prefixes, type codes ...): where a
+    seed contains one entry of a module-level collection, every other entry (and dict key) is substituted
+    for it.  Only adds start states; says nothing about what the entries mean."""
+    out = []
+    seeds = []
+    for s_, v in sv[:3]:
+        for x in (v, s_):
+            if x not in seeds:
+                seeds.append(x)
+    for attr, val in sorted(vars(m).items()):
+        if attr.startswith('__'):
+            continue
+        if isinstance(val, dict):
+            entries = [k for k in val if isinstance(k, str)]
+            entries += [x for x in val.values() if isinstance(x, str)]
+        elif isinstance(val, (tuple, list, set, frozenset)):
+            entries = [k for k in val if isinstance(k, str)]
+        else:
+            continue
+        entries = sorted(set(e for e in entries if e), key=lambda e: (-len(e), e))
+        if len(entries) < 3:
+            continue
+        for seed in seeds:
+            low = seed.lower()
+            hit = next((e for e in entries if len(e) >= 2 and e.lower() in low), None)
+            if hit is None:
+                continue
+            i = low.index(hit.lower())
+            for e in entries:
+                if e != hit:
+                    out.append(seed[:i] + e + seed[i + len(hit):])
+            break
+    out = list(dict.fromkeys(out))
+    if len(out) > limit:
+        step = len(out) / float(limit)
+        out = [out[int(i * step)] for i in range(limit)]
+    return out
